@@ -584,6 +584,126 @@ def r5(k: Kit) -> None:
                   'decoder returned', fi.loc(fi.node))
 
 
+def r6(k: Kit) -> None:
+    """Fixed-length encodings and optional PBKDF2 parameters."""
+    rep = k.rep
+    idx = k.idx
+    rep.rule('C15.R6', 'the EC private scalar is serialised at the fixed '
+             'length of the curve (RFC 5915: ceil(size/8) octets), evaluated '
+             'for scalars with and without leading zero bytes on 256/384/521 '
+             'bit curves; PBKDF2-params are parsed as salt, count, optional '
+             'keyLength, optional prf - each optional field independently - '
+             'evaluated for every combination of the two')
+    fi = k.func('crypto.ec._ECKey.private_value')
+    body = [st for st in fi.node.body if not (
+        isinstance(st, ast.Expr) and isinstance(st.value, ast.Constant))]
+    bad = None
+    n = 0
+    for size in (256, 384, 521):
+        want = (size + 7) // 8
+        for d in (1, 0xff, 0x0102, 1 << (size - 9), (1 << (size - 1)) + 7):
+            n += 1
+            val = {'self._priv': Obj('PRIV'),
+                   'self._priv.private_value': d,
+                   'self._pub.curve.key_size': size}
+            try:
+                o = evaluate(idx, fi.module, body, val, {},
+                             lambda a, b, e: Obj('x'))
+            except NotEvaluable as exc:
+                rep.error('C15.R6', key(fi, 'not-evaluable'), str(exc))
+                bad = 'error'
+                break
+            if not (o.kind == 'return' and isinstance(o.value, bytes) and
+                    len(o.value) == want and
+                    int.from_bytes(o.value, 'big') == d):
+                bad = bad or (
+                    f'{size}-bit curve, scalar of {d.bit_length()} bits: '
+                    f'encoded as {len(o.value) if isinstance(o.value, bytes) else o.value!r} '
+                    f'octets, RFC 5915 requires {want}')
+        if bad == 'error':
+            break
+    if bad != 'error':
+        rep.count('eval.ec_scalar_cases', n)
+        rep.check(bad is None, 'C15.R6', key(fi, 'fixed-length scalar'),
+                  f'{n} (curve, scalar) cases encoded at the curve length',
+                  f'{bad}: PKCS#1 / PKCS#8 exports of such keys (1 in 256) '
+                  'are rejected by other implementations', fi.loc(fi.node))
+    # PBKDF2 optional parameters
+    pf = k.func('pbe._pbes2_pbkdf2')
+    frag = []
+    for st in pf.node.body:
+        if isinstance(st, ast.Expr) and isinstance(st.value, ast.Constant):
+            continue
+        frag.append(st)
+        if isinstance(st, ast.If) and 'passphrase' in names_read(st.test):
+            frag.pop()
+            break
+    oid256 = Obj('OID-sha256')
+    bad = None
+    n = 0
+    for with_len in (False, True):
+        for prf in (None, 'sha256', 'unknown'):
+            n += 1
+            params = [b'salt', 2048]
+            if with_len:
+                params.append(32)
+            if prf:
+                params.append((oid256 if prf == 'sha256' else Obj('OID-x'),
+                               None))
+
+            def on_call(nm, args, env):
+                if nm == 'isinstance':
+                    v, t = args[0], args[1]
+                    tn = getattr(t, 'tag', None) or str(t)
+                    if 'int' == tn or tn.endswith('int()'):
+                        return isinstance(v, int) and \
+                            not isinstance(v, bool)
+                    if 'tuple' in tn:
+                        return isinstance(v, tuple)
+                    if 'ObjectIdentifier' in tn:
+                        return isinstance(v, Obj) and v.tag.startswith('OID')
+                    if 'bytes' in tn:
+                        return isinstance(v, bytes)
+                    if 'str' in tn:
+                        return isinstance(v, str)
+                    return Obj('x')
+                return Obj('x')
+            atoms = {'prf_alg in _pbes2_prf': prf == 'sha256',
+                     '_pbes2_prf[prf_alg]': 'sha256'}
+            try:
+                o = evaluate(idx, pf.module, frag, {},
+                             {'kdf_params': (tuple(params),),
+                              'default_key_size': 16,
+                              'passphrase': b'p'}, on_call, atoms)
+            except NotEvaluable as exc:
+                rep.error('C15.R6', key(pf, 'not-evaluable'), str(exc))
+                bad = 'error'
+                break
+            if prf == 'unknown':
+                if o.kind != 'raise':
+                    bad = bad or 'an unknown PRF is not rejected'
+                continue
+            ks = o.env.get('key_size')
+            hn = o.env.get('hash_name')
+            wk = 32 if with_len else 16
+            wh = 'sha256' if prf else 'sha1'
+            if o.kind == 'raise' or ks != wk or hn != wh:
+                bad = bad or (
+                    f'PBKDF2-params keyLength '
+                    f'{"present" if with_len else "absent"}, prf '
+                    f'{prf or "absent"}: parsed as key size {ks!r}, hash '
+                    f'{hn!r} ({o.kind}); expected {wk}, {wh!r}')
+        if bad == 'error':
+            break
+    if bad != 'error':
+        rep.count('eval.pbkdf2_param_cases', n)
+        rep.check(bad is None, 'C15.R6', key(pf, 'optional PBKDF2 fields'),
+                  f'{n} combinations of keyLength / prf parsed',
+                  f'{bad}: PKCS#8 keys written by encoders that include '
+                  'keyLength (BouncyCastle, Go) fail to import with the '
+                  'right passphrase', pf.loc(pf.node))
+
+
 def run(idx, rep, tier):
     k = Kit(idx, rep)
     rep.assumptions += NOT_DECIDED
@@ -592,3 +712,4 @@ def run(idx, rep, tier):
     r3(k)
     r4(k)
     r5(k)
+    r6(k)
